@@ -82,6 +82,7 @@ import os
 from ..core import AnalysisError, norm, short
 from ..cfg import expand_conds
 from .c20 import check_template_escaping, autoescape_writes
+from .. import dust
 from .common import (cfg_of, fkey, conds, has_cond, cond_texts, stmts_of, walk_body, call_tail, call_name, returns_of,
                      raises_of, stmt_of, kwarg, protected_by, names_loaded, enclosing_tries, handler_catches)
 
@@ -1624,6 +1625,7 @@ def _r18a(rep, repo, meta):
     if stray:
         raise AnalysisError('meta.py: %d read(s) of a sensitive mapping outside the analysed function bodies (first: line %s, %s)'
                             % (len(stray), getattr(stray[0], 'lineno', '?'), short(stray[0], 60)))
+    repo._c18_taint = tn
     _report_taint(rep, 'R18.a', tn)
     if not tn.sites and all(k is not None for _, _, k, _ in tn.reads):
         raise AnalysisError('meta.py: no iteration over the (name, value) pairs of a .resources mapping found (the resource listing '
@@ -3173,10 +3175,13 @@ def _section_conditions(links):
             except AnalysisError:
                 base = set()
         if started:
+            # (what the framework injects into the routed view itself -- the request, arguments of the URL, resources -- is the same
+            # for every section; ``context``, by the framework's convention, is what the endpoint returned: the shared state)
+            given = set(p for p in lf.params() if p != 'context' and not _maybe_mutated(lf, p)) if j == 0 else set()
             for t, p in expr_conds(lf, ln):
                 if (norm(t), p) in base or isinstance(t, ast.BoolOp):
                     continue
-                x = _depends_on_peripheral_only(lf, t, pn, region)
+                x = _depends_on_peripheral_only(lf, t, pn | given, region)
                 if x is not None:
                     out.append((t, lf, x))
         # the peripheral handed on to the helper of the next link
@@ -3228,50 +3233,6 @@ def _maybe_mutated(fi, name):
         elif isinstance(par, ast.keyword):
             return True
     return False
-
-
-def _section_conditions(links):
-    """[(condition, function, the local it reads)]: the conditions -- inside the loop over the peripherals, down to the
-    protected call -- under which the call is made and that read something else than the peripheral at hand (what an
-    earlier section left in the shared context, a flag, a counter).  ``links``: (function, node) from the view down to the
-    call, through the helpers that make it."""
-    out = []
-    pn, started = set(), False
-    for j, (lf, ln) in enumerate(links):
-        loops = [l for l in _loops_around(lf, ln) if _iter_mentions(lf, l.iter, 'peripherals')]
-        pn = _peripheral_elements(lf, pn)
-        base = set()
-        if loops and not started:
-            started = True
-            outer = loops[-1]
-            anchor_stmt = outer if isinstance(outer, ast.For) else stmt_of(lf.mod, outer)
-            try:
-                base = set((norm(t), p) for t, p in conds(lf, anchor_stmt))
-            except AnalysisError:
-                base = set()
-        if started:
-            for t, p in expr_conds(lf, ln):
-                if (norm(t), p) in base or isinstance(t, ast.BoolOp):
-                    continue
-                x = _depends_on_peripheral_only(lf, t, pn)
-                if x is not None:
-                    out.append((t, lf, x))
-        # the peripheral handed on to the helper of the next link
-        if j + 1 < len(links) and isinstance(ln, ast.Call):
-            nxt = links[j + 1][0]
-            passed = set()
-            for skip in (1, 0):
-                b = bind_args(nxt, skip, ln)
-                if b is not None:
-                    passed = set(p for p, x in b.items() if isinstance(x, ast.Name) and x.id in pn)
-                    if passed or skip == 0:
-                        break
-            if isinstance(ln.func, ast.Attribute) and isinstance(ln.func.value, ast.Name) and ln.func.value.id in pn and nxt.params():
-                passed.add(nxt.params()[0])          # ``<peripheral>.method(..)``: its ``self``
-            pn = passed
-        else:
-            pn = set()
-    return out
 
 
 def _repeated_lookups(fi, h):
@@ -3418,6 +3379,158 @@ def _with_locals(fi, expr, depth=0):
     return out
 
 
+def _reached_views(repo, fi, vkeys, depth=0, seen=None):
+    """The view functions ``fi`` reaches through calls the tree resolves (itself included), with the functions nested in them."""
+    seen = {} if seen is None else seen
+    if fi.key in seen or depth > 4:
+        return seen
+    for g in _with_nested(fi):
+        seen[g.key] = g
+    for g in _with_nested(fi):
+        for n in walk_body(g.node):
+            if isinstance(n, ast.Call):
+                callee, _ = resolve_callee(repo, g, n)
+                if callee is not None and callee.key in vkeys:
+                    _reached_views(repo, callee, vkeys, depth + 1, seen)
+    return seen
+
+
+def _strings_of(repo, fi):
+    """Every text the function can use as a key: its string constants (also those inside tuples / lists), the module- / class-
+    level constants it names, and the keyword names of the ``dict(..)`` / ``.update(..)`` calls it makes."""
+    out = set()
+    for n in ast.walk(fi.node):
+        if isinstance(n, ast.Constant) and isinstance(n.value, str):
+            out.add(n.value)
+        elif isinstance(n, (ast.Name, ast.Attribute)) and isinstance(n.ctx, ast.Load):
+            v = _fold_any(repo, fi, n) if not (isinstance(n, ast.Name) and n.id in _local_names(fi)) else None
+            if isinstance(v, str):
+                out.add(v)
+            elif isinstance(v, (tuple, list)):
+                out |= set(x for x in v if isinstance(x, str))
+        elif isinstance(n, ast.Call) and (call_name(n) == 'dict' or call_tail(n) in ('update', 'setdefault')):
+            out |= set(k.arg for k in n.keywords if k.arg is not None)
+    return out
+
+
+def _key_of_value(fi, node, depth=0):
+    """The constant key under which the value of ``node`` is stored in a row -- ``{'k': node}``, ``dict(k=node)`` / ``.update(k=node)``,
+    ``row['k'] = node`` -- directly or through the one local it is assigned to; None when that cannot be told."""
+    mod = fi.mod
+    cur = node
+    while True:
+        par = mod.parents.get(cur)
+        if isinstance(par, ast.IfExp) and par.test is not cur:
+            cur = par
+            continue
+        break
+    if isinstance(par, ast.Dict):
+        for k, v in zip(par.keys, par.values):
+            if v is cur and isinstance(k, ast.Constant) and isinstance(k.value, str):
+                return k.value
+        return None
+    if isinstance(par, ast.keyword) and par.arg is not None:
+        call = mod.parents.get(par)
+        if isinstance(call, ast.Call) and (call_name(call) == 'dict' or call_tail(call) == 'update'):
+            return par.arg
+        return None
+    if isinstance(par, ast.Assign) and par.value is cur and len(par.targets) == 1:
+        t = par.targets[0]
+        if isinstance(t, ast.Subscript) and isinstance(t.slice, ast.Constant) and isinstance(t.slice.value, str):
+            return t.slice.value
+        if isinstance(t, ast.Name) and depth < 2:
+            found = set()
+            for x in _walk(fi):
+                if isinstance(x, ast.Name) and x.id == t.id and isinstance(x.ctx, ast.Load):
+                    k = _key_of_value(fi, x, depth + 1)
+                    if k is not None:
+                        found.add(k)
+            return found.pop() if len(found) == 1 else None
+    return None
+
+
+def _listing_agreement(rep, repo, meta, files, pkg_dir):
+    """What the resource listing produces is what its section template shows (table agreement).  The template peripheral
+    whose ``get_context`` reaches the listing stores it under a constant key; its template has a ``{#<key>}`` section; every
+    reference inside that section is a text the listing code can use as a row key; and -- where the shape tells under
+    which key the redaction marker is stored -- that key is referenced.  Else the page answers 200 and lists nothing
+    (neither the redaction marker nor the values of the other resources).  Judged as far as the shape can be read."""
+    tn = getattr(repo, '_c18_taint', None)
+    if tn is None:
+        tn = _Taint(repo, meta)
+        for fi in _view_functions(repo, meta) + _toplevel_lambdas(meta):
+            tn.scan(fi, {})
+    sites = [st for st in tn.sites if st.markers and st.uses]
+    if not sites:
+        return
+    site = sites[0]
+    vkeys = set(f.key for f in _view_functions(repo, meta))
+    shown = []
+    for c in _view_classes(repo, meta):
+        gc = repo.find_method(c, 'get_context')
+        tp = c.class_attrs.get('template_path')
+        if gc is None or tp is None or _class_of(gc) is not c:
+            continue
+        reached = _reached_views(repo, gc, vkeys)
+        if site.fi.key in reached and site.fi is not gc:
+            shown.append((c, gc, repo.try_fold(tp, c.mod), reached))
+    if len(shown) != 1:
+        rep.decline('R18.d table agreement: the peripheral that shows the resource listing was not identified (%d candidates)' % len(shown))
+        return
+    c, gc, tp, reached = shown[0]
+    if tp not in files:
+        return          # (judged above: not a shipped template)
+    listing = [f for k, f in reached.items() if k != gc.key and not any(f is g for g in _with_nested(gc))]
+    strings = set()
+    for f in listing:
+        strings |= _strings_of(repo, f)
+    ctx_keys = _strings_of(repo, gc)
+    with open(os.path.join(pkg_dir, tp), encoding='utf-8') as fh:
+        tags = dust.tokenize(repo, fh.read())
+    sections = {}          # name of a {#..} section named by a context key -> names referenced inside it
+    stack = []
+    for t in tags:
+        name = (t.refpath or '').lstrip('.').split('.')[0]
+        if t.kind == 'close':
+            if stack:
+                stack.pop()
+            continue
+        opener = t.kind == 'section' and not t.selfclosing
+        for sec, depth in [(sec, len(stack) - i - 1) for i, sec in enumerate(stack) if sec in sections]:
+            if depth == 0 and name and (t.kind == 'ref' or (opener and t.symbol in '#?^')):
+                sections[sec].add(name)
+        if opener:
+            if t.symbol == '#' and (t.refpath or '').lstrip('.') in ctx_keys and not any(s2 in sections for s2 in stack):
+                sections.setdefault((t.refpath or '').lstrip('.'), set())
+                stack.append((t.refpath or '').lstrip('.'))
+            else:
+                stack.append(None)
+    key = '%s::%s::resource listing' % (META, c.name)
+    rep.check('R18.d', key + '::section', bool(sections), '%s iterates over %s, stored by %s.get_context' % (tp, sorted(sections), c.name) if sections else
+              '%s.get_context stores the resource listing under %s, but %s has no {#..} section of that name: the page lists no resource at all'
+              % (c.name, sorted(ctx_keys), tp), gc.mod, gc.node)
+    if not sections:
+        return
+    refs = set(x for v in sections.values() for x in v)
+    unknown = sorted(refs - strings)
+    rep.check('R18.d', key + '::references are row keys', not unknown, 'every reference inside {#%s} (%s) is a key the listing code uses'
+              % ('/'.join(sorted(sections)), sorted(refs)) if not unknown else
+              '%s references %s inside {#%s}, which the code of the listing (%s) never uses as a key: the column stays empty -- neither the '
+              'redaction marker nor the values of the other resources are on the page'
+              % (tp, unknown, '/'.join(sorted(sections)), ', '.join(sorted(f.qualname for f in listing))[:80]), site.fi.mod, site.fi.node)
+    vkeys_found = set()
+    for f, n, _ in site.markers:
+        k = _key_of_value(f, n)
+        if k is not None:
+            vkeys_found.add(k)
+    if len(vkeys_found) == 1:
+        vk = sorted(vkeys_found)[0]
+        rep.check('R18.d', key + '::value column shown', vk in refs, 'the key %r, under which the marker / the value is stored, is referenced by %s' % (vk, tp)
+                  if vk in refs else 'the rows store the marker / the value under %r, which %s never references inside {#%s} (it shows %s): the page '
+                  'answers 200 but neither the redaction marker nor the values of the other resources are on it'
+                  % (vk, tp, '/'.join(sorted(sections)), sorted(refs)), site.fi.mod, site.fi.node)
+
+
 def _r18d(rep, repo, meta):
     pkg_dir = os.path.join(repo.root, 'clastic')
     files = sorted(f for f in os.listdir(pkg_dir) if f.startswith('meta_') and f.endswith('.html'))
@@ -3476,6 +3589,7 @@ def _r18d(rep, repo, meta):
         raise AnalysisError('MetaApplication.__init__: assignment of self._main_page_render not found')
     ok = all(names_base(s.value) for s in renders)
     rep.check('R18.d', fkey(mi, 'main template'), ok, 'the main page is rendered from meta_base.html' if ok else 'the main page template changed', meta, mi.node)
+    _listing_agreement(rep, repo, meta, files, pkg_dir)
     rep.floor('R18.d', 40)
 
 
